@@ -2,6 +2,7 @@ package main
 
 import (
 	"fmt"
+	"os"
 	"go/types"
 
 	"golang.org/x/tools/go/ssa"
@@ -25,6 +26,7 @@ type initInfo struct {
 	ifaceVals map[int]ifaceVal
 	strLitIDs map[string]uint64
 	notes    []string
+	facts    *initFacts
 }
 
 func (w *World) mutableGlobals() map[*ssa.Global]bool {
@@ -102,6 +104,7 @@ func (w *World) buildInit() *initInfo {
 	e.contracts = map[*ssa.Function]*ssa.Function{}
 	e.invs, e.decs, e.unrolls = w.invs, w.decs, w.unrolls
 	e.trueInv = w.trueInv
+	e.frames = w.frames
 	st := &State{ cells: map[cellKey][]*Term{}, mems: map[string]*Mem{}, clos: map[cellKey]*Closure{}, caddr: map[cellKey]*Addr{}, ghost: map[string]*Term{}}
 	info := &initInfo{ro: map[*ssa.Global][]*Term{}}
 	mut := w.mutableGlobals()
@@ -189,6 +192,10 @@ func (w *World) buildInit() *initInfo {
 			info.ro[g] = ts
 		}
 	}
+	// memories that init only wrote at constant locations become facts about the
+	// base memory (added to a query only for the locations it mentions), so that
+	// reads through symbolic regions do not drag the whole init history along
+	info.facts = flattenInitMems(st)
 	// path facts collected during init (e.g. non-nil error handles) are kept
 	info.st = st
 	info.literals, info.litByID = e.literals, e.litByID
@@ -210,4 +217,173 @@ func tryLeaves(t types.Type) (ls []Leaf, ok bool) {
 func isRepoPkg(p *ssa.Package) bool {
 	path := p.Pkg.Path()
 	return len(path) >= len("github.com/irai/packet") && path[:len("github.com/irai/packet")] == "github.com/irai/packet"
+}
+
+type initPoint struct {
+	keys []*Term
+	val  *Term
+}
+
+type initFacts struct {
+	base     map[string]*Mem                  // memory name -> base node
+	points   map[string]map[string]initPoint  // memory name -> key string -> point
+	byRegion map[string]map[uint64][]initPoint // memory name -> first key const -> points
+	fills    map[string]map[uint64]*Term      // memory name -> first key const -> fill value
+}
+
+// flattenInitMems rewrites st.mems in place.
+func flattenInitMems(st *State) *initFacts {
+	f := &initFacts{base: map[string]*Mem{}, points: map[string]map[string]initPoint{}, byRegion: map[string]map[uint64][]initPoint{}, fills: map[string]map[uint64]*Term{}}
+	for name, m := range st.mems {
+		// collect the chain oldest-first; give up on anything but constant point writes and fills
+		var chain []*Mem
+		ok := true
+		for x := m; x != nil; x = x.prev {
+			if x.kind == MBase {
+				break
+			}
+			if x.kind == MWrite {
+				for _, k := range x.keys {
+					if !k.IsConst() {
+						ok = false
+					}
+				}
+			} else if x.kind == MFill {
+				if !x.region.IsConst() {
+					ok = false
+				}
+			} else if x.kind == MCopy {
+				if !(x.region.IsConst() && x.dst.IsConst() && x.n.IsConst() && x.n.val.BitLen() < 13) {
+					ok = false
+				}
+			} else {
+				ok = false
+			}
+			chain = append(chain, x)
+		}
+		if !ok || len(chain) == 0 {
+			if os.Getenv("GOVC_DEBUG_INIT") != "" && len(chain) > 0 {
+				kinds := map[MemKind]int{}
+				for _, x := range chain {
+					kinds[x.kind]++
+					if x.kind == MCopy && !(x.region.IsConst() && x.dst.IsConst() && x.n.IsConst()) {
+						fmt.Printf("INIT %s: copy region=%s dst=%s n=%s\n", name, x.region, x.dst, x.n)
+					}
+					if x.kind == MWrite {
+						for _, k := range x.keys {
+							if !k.IsConst() {
+								fmt.Printf("INIT %s: write key %s\n", name, k)
+							}
+						}
+					}
+				}
+				fmt.Printf("INIT %s not flattened: %v\n", name, kinds)
+			}
+			continue
+		}
+		base := NewBaseMem(name, m.ksort, m.sort, "M0."+name)
+		pts := map[string]initPoint{}
+		fills := map[uint64]*Term{}
+		for j := len(chain) - 1; j >= 0; j-- {
+			x := chain[j]
+			if x.kind == MCopy {
+				n := x.n.val.Int64()
+				for k := int64(0); k < n; k++ {
+					keys := []*Term{x.region, BVAdd(x.dst, BVConst(k, IntSort))}
+					v := x.src.Read([]*Term{x.srcRegion, BVAdd(x.srcOff, BVConst(k, IntSort))})
+					pts[keyStr(keys)] = initPoint{keys, v}
+				}
+				continue
+			}
+			if x.kind == MFill {
+				r := x.region.val.Uint64()
+				fills[r] = x.val
+				// a fill overrides earlier writes to that region
+				for ks, p := range pts {
+					if p.keys[0].val.Uint64() == r {
+						delete(pts, ks)
+					}
+				}
+				continue
+			}
+			pts[keyStr(x.keys)] = initPoint{x.keys, x.val}
+		}
+		f.base[name] = base
+		f.points[name] = pts
+		f.fills[name] = fills
+		br := map[uint64][]initPoint{}
+		for _, p := range pts {
+			if len(p.keys) > 0 {
+				r := p.keys[0].val.Uint64()
+				br[r] = append(br[r], p)
+			}
+		}
+		f.byRegion[name] = br
+		st.mems[name] = base
+	}
+	return f
+}
+
+// initFactsFor returns the facts about init-time memory relevant to the base
+// memory reads occurring in fs.
+func (e *Engine) initFactsFor(fs []*Term) []*Term {
+	f := e.initFacts
+	if f == nil {
+		return nil
+	}
+	ufToMem := map[string]string{}
+	for name, b := range f.base {
+		ufToMem[b.uf] = name
+	}
+	var out []*Term
+	seenApp := map[int]bool{}
+	seen := map[int]bool{}
+	for _, x := range fs {
+		Walk(x, seen, func(t *Term) {
+			if t.op != "uf" && t.op != "var" {
+				return
+			}
+			name, ok := ufToMem[t.name]
+			if !ok || seenApp[t.id] {
+				return
+			}
+			seenApp[t.id] = true
+			keys := t.args
+			if len(keys) == 0 {
+				if p, ok := f.points[name][""]; ok {
+					out = append(out, Eq(t, p.val))
+				}
+				return
+			}
+			if !keys[0].IsConst() {
+				return // symbolic first key: nothing is asserted (weaker hypotheses, sound)
+			}
+			r := keys[0].val.Uint64()
+			allConst := true
+			for _, k := range keys {
+				if !k.IsConst() {
+					allConst = false
+				}
+			}
+			if allConst {
+				if p, ok := f.points[name][keyStr(keys)]; ok {
+					out = append(out, Eq(t, p.val))
+				} else if v, ok := f.fills[name][r]; ok {
+					out = append(out, Eq(t, v))
+				}
+				return
+			}
+			// constant region / object, symbolic rest: one conditional fact per init write there
+			var none []*Term
+			for _, p := range f.byRegion[name][r] {
+				c := keysEq(keys, p.keys)
+				out = append(out, Implies(c, Eq(t, p.val)))
+				none = append(none, Not(c))
+			}
+			if v, ok := f.fills[name][r]; ok {
+				out = append(out, Implies(And(none...), Eq(t, v)))
+			}
+		})
+	}
+	return out
 }
